@@ -121,18 +121,26 @@ func zzvCheckBucket(res *vrep.Result, b *FSBucket, dir string, model map[string]
 			}
 		}
 		sort.Strings(want)
-		it := b.Objects(ctx, p)
 		var got []string
-		for {
-			n, err := it.Next()
-			if errors.Is(err, ErrObjectIteratorDone) {
-				break
+		var pan any
+		func() {
+			defer func() { pan = recover() }()
+			it := b.Objects(ctx, p)
+			for {
+				n, err := it.Next()
+				if errors.Is(err, ErrObjectIteratorDone) {
+					break
+				}
+				if err != nil {
+					fail("list-error", "listing %q: %v", p, err)
+					break
+				}
+				got = append(got, n)
 			}
-			if err != nil {
-				fail("list-error", "listing %q: %v", p, err)
-				break
-			}
-			got = append(got, n)
+		}()
+		if pan != nil {
+			fail("list-panic", "listing with prefix %q panics: %v", p, pan)
+			continue
 		}
 		sorted := append([]string{}, got...)
 		sort.Strings(sorted)
